@@ -150,14 +150,14 @@ Proof. exact hap_wrong_code. Qed.
 
 (* ---- SHA-512 model: digest shape for every input; NIST vectors *)
 Theorem sha512_digest_shape : forall m, length (sha512 m) = 64%nat /\ all_bytes (sha512 m) = true.
-Proof. intros m. split; [apply sha512_length|apply sha512_bytes]. Qed.
+Proof. exact sha512_shape. Qed.
 
 Theorem sha512_nist_vectors :
   sha512 [97; 98; 99]%N =
     hexd 0xddaf35a193617abacc417349ae20413112e6fa4e89a97ea20a9eeee64b55d39a2192992a274fc1a836ba3c23a3feebbd454d4423643ce80e2a9ac94fa54ca49f /\
   sha512 [] =
     hexd 0xcf83e1357eefb8bdf1542850d66d8007d620e4050b5715dc83f4a921d36ce9ce47d0d13c5d85f2b0ff8318d2877eec2f63b931bd47417a81a538327af927da3e.
-Proof. split; [exact sha512_nist_abc|exact sha512_nist_empty]. Qed.
+Proof. exact sha512_nist_pair. Qed.
 
 (* ---- refinement: the BigN evaluator used by the correspondence runs computes
    the functions above (depends on the Uint63 primitive-integer axioms of the
